@@ -147,6 +147,12 @@ def run(scn, seed, line_p=0.05, stick=0.5, decisions=None, rpc_timeout=2):
         if k == 'conn_open':
             conn.open()
             return 'CRNone'
+        if k == 'sync_timer':
+            # wait until the instant the next heartbeat timer is due
+            due = [t.deadline for t in rt.timers if t.armed]
+            if due:
+                rt.yield_('blocked', wake=min(due))
+            return 'CRNone'
         ch = st['chans'][c]
         if k == 'declare':
             r = ch.queue.declare(op[1].decode('latin-1'))
@@ -272,7 +278,7 @@ def cop_coq(op):
     if k == 'cancel':
         return '(CCancel %s)' % coq_bytes(op[1])
     return {'get': 'CGet', 'ack': 'CAck', 'open': 'COpenChan', 'check': 'CCheck',
-            'conn_close': 'CConnClose', 'conn_open': 'CConnOpen'}[k]
+            'conn_close': 'CConnClose', 'conn_open': 'CConnOpen', 'sync_timer': 'CCheck'}[k]
 
 
 def wire_coq(ch, fr):
